@@ -20,7 +20,8 @@
 use std::collections::BTreeMap;
 use std::io::Cursor;
 use wow_adt::chunks::mh2o::{
-    HeightDepthVertex, Mh2oAttributes, Mh2oChunk, Mh2oEntry, Mh2oHeader, Mh2oInstance, VertexDataArray,
+    DepthOnlyVertex, HeightDepthVertex, HeightUvDepthVertex, HeightUvVertex, Mh2oAttributes, Mh2oChunk, Mh2oEntry, Mh2oHeader,
+    Mh2oInstance, UvMapEntry, VertexDataArray,
 };
 use wow_adt::chunks::mcnk::{
     LiquidType, LiquidVertex, MccvChunk, MclqChunk, MclvChunk, MclyChunk, MclyFlags, MclyLayer, McalChunk,
@@ -85,12 +86,17 @@ fn names(n: usize, dir: &str, ext: &str, r: &mut Rng) -> Vec<String> {
         .collect()
 }
 
-fn water_entry(ci: usize, r: &mut Rng) -> Mh2oEntry {
-    let variant = (ci + r.below(3) as usize) % 3;
-    let (xo, yo, w, h) = if variant == 2 { (1u8, 2u8, 2u8, 3u8) } else { (0, 0, 8, 8) };
+/// One liquid layer: rectangle, liquid vertex format 0..3 (the builder API admits all four
+/// VertexDataArray variants), optional exists bitmap, optional vertex data.
+fn water_layer(variant: usize, lvf: u16, r: &mut Rng) -> (Mh2oInstance, Option<VertexDataArray>, Option<u64>) {
+    let (xo, yo, w, h) = match variant % 4 {
+        0 | 1 => (0u8, 0u8, 8u8, 8u8),
+        2 => (1, 2, 2, 3),
+        _ => (3, 0, 5, 8),
+    };
     let inst = Mh2oInstance {
         liquid_type: 1 + r.below(20) as u16,
-        liquid_object_or_lvf: 0, // LVF 0 = height + depth
+        liquid_object_or_lvf: lvf,
         min_height_level: fval(r),
         max_height_level: fval(r),
         x_offset: xo,
@@ -100,25 +106,63 @@ fn water_entry(ci: usize, r: &mut Rng) -> Mh2oEntry {
         offset_exists_bitmap: 0,
         offset_vertex_data: 0,
     };
-    let (vd, bm) = match variant {
-        0 => (None, None),
-        _ => {
-            let mut grid: [Option<HeightDepthVertex>; 81] = [None; 81];
-            for z in yo as usize..=(yo + h) as usize {
-                for x in xo as usize..=(xo + w) as usize {
-                    grid[z * 9 + x] = Some(HeightDepthVertex { height: fval(r), depth: r.byte() });
-                }
+    if variant % 4 == 0 {
+        return (inst, None, None);
+    }
+    let cells: Vec<usize> = (yo as usize..=(yo + h) as usize).flat_map(|z| (xo as usize..=(xo + w) as usize).map(move |x| z * 9 + x)).collect();
+    let uv = |r: &mut Rng| UvMapEntry { u: r.next_u32() as u16, v: r.next_u32() as u16 };
+    let vd = match lvf {
+        0 => {
+            let mut g: [Option<HeightDepthVertex>; 81] = [None; 81];
+            for i in &cells {
+                g[*i] = Some(HeightDepthVertex { height: fval(r), depth: r.byte() });
             }
-            let bits = (w as u32) * (h as u32);
-            let mask = if bits >= 64 { u64::MAX } else { (1u64 << bits) - 1 };
-            (Some(VertexDataArray::HeightDepth(Box::new(grid))), Some((r.next_u64() | 1) & mask))
+            VertexDataArray::HeightDepth(Box::new(g))
+        }
+        1 => {
+            let mut g: [Option<HeightUvVertex>; 81] = [None; 81];
+            for i in &cells {
+                g[*i] = Some(HeightUvVertex { height: fval(r), uv: uv(r) });
+            }
+            VertexDataArray::HeightUv(Box::new(g))
+        }
+        2 => {
+            let mut g: [Option<DepthOnlyVertex>; 81] = [None; 81];
+            for i in &cells {
+                g[*i] = Some(DepthOnlyVertex { depth: r.byte() });
+            }
+            VertexDataArray::DepthOnly(Box::new(g))
+        }
+        _ => {
+            let mut g: [Option<HeightUvDepthVertex>; 81] = [None; 81];
+            for i in &cells {
+                g[*i] = Some(HeightUvDepthVertex { height: fval(r), uv: uv(r), depth: r.byte() });
+            }
+            VertexDataArray::HeightUvDepth(Box::new(g))
         }
     };
+    let bits = (w as u32) * (h as u32);
+    let mask = if bits >= 64 { u64::MAX } else { (1u64 << bits) - 1 };
+    // the last layer variant keeps full coverage (no bitmap) but has vertex data
+    let bm = if variant % 4 == 3 { None } else { Some((r.next_u64() | 1) & mask) };
+    (inst, Some(vd), bm)
+}
+
+fn water_entry(ci: usize, layers: usize, r: &mut Rng) -> Mh2oEntry {
+    let mut instances = Vec::new();
+    let mut vertex_data = Vec::new();
+    let mut exists_bitmaps = Vec::new();
+    for l in 0..layers {
+        let (i, v, b) = water_layer(ci + l + r.below(4) as usize, ((ci + l) as u16 + r.below(4) as u16) % 4, r);
+        instances.push(i);
+        vertex_data.push(v);
+        exists_bitmaps.push(b);
+    }
     Mh2oEntry {
-        header: Mh2oHeader { offset_instances: 0, layer_count: 1, offset_attributes: 0 },
-        instances: vec![inst],
-        vertex_data: vec![vd],
-        exists_bitmaps: vec![bm],
+        header: Mh2oHeader { offset_instances: 0, layer_count: layers as u32, offset_attributes: 0 },
+        instances,
+        vertex_data,
+        exists_bitmaps,
         attributes: if r.chance(2, 3) {
             Some(Mh2oAttributes { fishable: r.next_u64() | 1, deep: r.next_u64() })
         } else {
@@ -304,6 +348,7 @@ fn make_inputs(c: &Value, case: &str) -> Inputs {
             mcnk(c, *x, *y, opt, &mut r)
         })
         .collect();
+    let wlay = gi(c, "wlay").max(1) as usize;
     let mh2o = match gs(c, "water") {
         "none" => None,
         w => {
@@ -315,7 +360,7 @@ fn make_inputs(c: &Value, case: &str) -> Inputs {
                 o => tool_error(&format!("unknown water class {o}")),
             };
             for ci in which {
-                entries[ci] = water_entry(ci, &mut r);
+                entries[ci] = water_entry(ci, wlay, &mut r);
             }
             Some(Mh2oChunk { entries })
         }
